@@ -310,6 +310,9 @@ type clientTransaction struct {
 	start   time.Time
 	rto     time.Duration
 	raw     []byte
+	// gen counts how often the pooled object has been released. Together
+	// with the pointer it identifies one use of the object.
+	gen uint64
 }
 
 func (t *clientTransaction) handle(e Event) {
@@ -335,6 +338,7 @@ func putClientTransaction(t *clientTransaction) {
 	t.start = time.Time{}
 	t.attempt = 0
 	t.id = transactionID{}
+	t.gen++
 	clientTransactionPool.Put(t)
 }
 
@@ -609,11 +613,14 @@ func (c *Client) Do(m *Message, f func(Event)) error {
 	return nil
 }
 
-// delete unregisters the transaction and reports whether it was still
-// registered.
-func (c *Client) delete(id transactionID) bool {
+// delete unregisters transaction t, taken in generation gen, and reports
+// whether it was still registered. A transaction that was completed in the
+// meantime is not: neither if its ID has been registered again by a later
+// transaction, nor if that one got the same pooled object.
+func (c *Client) delete(t *clientTransaction, id transactionID, gen uint64) bool {
 	c.mux.Lock()
-	_, found := c.t[id]
+	cur, found := c.t[id]
+	found = found && cur == t && cur.gen == gen
 	if found {
 		delete(c.t, id)
 	}
@@ -648,6 +655,7 @@ func (c *Client) handleAgentCallback(event Event) { //nolint:cyclop
 		buff    *buffer
 		timeOut time.Time
 		id      transactionID
+		gen     uint64
 	)
 	if retransmit {
 		// As soon as the lock is released a response may complete the
@@ -658,6 +666,7 @@ func (c *Client) handleAgentCallback(event Event) { //nolint:cyclop
 		buff.buf = append(buff.buf[:0], transaction.raw...)
 		timeOut = transaction.nextTimeout(now)
 		id = transaction.id
+		gen = transaction.gen
 	} else if found {
 		delete(c.t, transaction.id)
 	}
@@ -694,7 +703,7 @@ func (c *Client) handleAgentCallback(event Event) { //nolint:cyclop
 	defer bufferPool.Put(buff)
 	// Starting agent transaction.
 	if startErr := c.a.Start(id, timeOut); startErr != nil {
-		if !c.delete(id) {
+		if !c.delete(transaction, id, gen) {
 			// Completed concurrently after it was registered again: the
 			// transaction now belongs to the goroutine that completed it.
 			return
@@ -708,7 +717,7 @@ func (c *Client) handleAgentCallback(event Event) { //nolint:cyclop
 	// Writing message to connection again.
 	_, writeErr := c.c.Write(buff.buf)
 	if writeErr != nil {
-		if !c.delete(id) {
+		if !c.delete(transaction, id, gen) {
 			// A response (or Close) completed the transaction while the
 			// write was in progress. That goroutine has called the handler
 			// and released the transaction; releasing it a second time would
@@ -745,9 +754,13 @@ func (c *Client) Start(msg *Message, handler Handler) error {
 	if closed {
 		return ErrClientClosed
 	}
+	var (
+		t   *clientTransaction
+		gen uint64
+	)
 	if handler != nil {
 		// Starting transaction only if h is set. Useful for indications.
-		t := acquireClientTransaction()
+		t = acquireClientTransaction()
 		t.id = msg.TransactionID
 		t.start = c.clock.Now()
 		t.h = handler
@@ -755,12 +768,13 @@ func (c *Client) Start(msg *Message, handler Handler) error {
 		t.attempt = 0
 		t.raw = append(t.raw[:0], msg.Raw...)
 		t.calls = 0
+		gen = t.gen
 		d := t.nextTimeout(t.start)
 		if err := c.start(t); err != nil {
 			return err
 		}
 		if err := c.a.Start(msg.TransactionID, d); err != nil {
-			if !c.delete(msg.TransactionID) {
+			if !c.delete(t, msg.TransactionID, gen) {
 				// Completed concurrently after it was registered: the handler
 				// has got the outcome, so no error is reported in addition.
 				return nil
@@ -774,7 +788,7 @@ func (c *Client) Start(msg *Message, handler Handler) error {
 	}
 	_, err := msg.WriteTo(c.c)
 	if err != nil && handler != nil {
-		if !c.delete(msg.TransactionID) {
+		if !c.delete(t, msg.TransactionID, gen) {
 			// The transaction has already been completed concurrently (the
 			// client was closed after it was registered): the handler gets
 			// the outcome, so the error must not be reported a second time.
